@@ -114,7 +114,7 @@ impl KZG10 {
 //@rw 1 /p\.label\(\)\.to_string\(\)/ => string_to_string(p.label())
 //@end
 
-//@fn id=kzg10.commit file=poly-commit/src/kzg10/mod.rs scope="impl<E, P> KZG10<E, P>" name=commit props=C01,C07,C08,C17
+//@fn id=kzg10.commit file=poly-commit/src/kzg10/mod.rs scope="impl<E, P> KZG10<E, P>" name=commit props=C01,C07,C08,C17,C19
     pub fn commit(powers: &Powers, polynomial: &Poly, hiding_bound: Option<usize>, rng: Option<&mut Rng>) -> (res: Result<(Commitment, Randomness), Error>)
     requires
         polynomial.wf(),
@@ -122,22 +122,22 @@ impl KZG10 {
         hiding_bound is Some ==> hiding_bound->Some_0 < usize::MAX - 1,
     ensures
         // admission (C17): too many coefficients, missing RNG, bad hiding bound => Err
-        polynomial.degree_spec() + 1 > powers.powers_of_g@.len() ==> res is Err,   // name=kzg10.commit.err_too_many_coefficients props=C17
-        (hiding_bound is Some && rng is None) ==> res is Err,                      // name=kzg10.commit.err_missing_rng props=C17,C07
-        (hiding_bound is Some && hiding_bound->Some_0 + 1 >= powers.powers_of_gamma_g@.len()) ==> res is Err,   // name=kzg10.commit.err_hiding_bound_too_large props=C17
+        polynomial.degree_spec() + 1 > powers.powers_of_g@.len() ==> res is Err,   // name=kzg10.commit.err_too_many_coefficients props=C17,C19
+        (hiding_bound is Some && rng is None) ==> res is Err,                      // name=kzg10.commit.err_missing_rng props=C17,C07,C19
+        (hiding_bound is Some && hiding_bound->Some_0 + 1 >= powers.powers_of_gamma_g@.len()) ==> res is Err,   // name=kzg10.commit.err_hiding_bound_too_large props=C17,C19
         // in-domain requests succeed
-        (polynomial.degree_spec() + 1 <= powers.powers_of_g@.len() && (hiding_bound is None || (rng is Some && hiding_bound->Some_0 + 1 < powers.powers_of_gamma_g@.len()))) ==> res is Ok,   // name=kzg10.commit.in_domain_ok props=C17,C01
+        (polynomial.degree_spec() + 1 <= powers.powers_of_g@.len() && (hiding_bound is None || (rng is Some && hiding_bound->Some_0 + 1 < powers.powers_of_gamma_g@.len()))) ==> res is Ok,   // name=kzg10.commit.in_domain_ok props=C17,C01,C19
         // value (C08, C01): the key-defined linear map of the coefficients plus the blinding term under the gamma powers
-        res is Ok ==> res->Ok_0.0.0@ == commit_spec(powers, polynomial.cv(), res->Ok_0.1.blinding_polynomial.cv()),   // name=kzg10.commit.value props=C08,C01,C07
+        res is Ok ==> res->Ok_0.0.0@ == commit_spec(powers, polynomial.cv(), res->Ok_0.1.blinding_polynomial.cv()),   // name=kzg10.commit.value props=C08,C01,C07,C19
         // non-hiding: no blinding polynomial, caller's RNG untouched
-        (res is Ok && hiding_bound is None) ==> res->Ok_0.1.blinding_polynomial.coeffs@.len() == 0,   // name=kzg10.commit.non_hiding_has_no_blinding props=C07
-        (hiding_bound is None && rng is Some) ==> final(rng->Some_0).pos == old(rng->Some_0).pos,   // name=kzg10.commit.non_hiding_rng_untouched props=C07
+        (res is Ok && hiding_bound is None) ==> res->Ok_0.1.blinding_polynomial.coeffs@.len() == 0,   // name=kzg10.commit.non_hiding_has_no_blinding props=C07,C19
+        (hiding_bound is None && rng is Some) ==> final(rng->Some_0).pos == old(rng->Some_0).pos,   // name=kzg10.commit.non_hiding_rng_untouched props=C07,C19
         // hiding: h + 2 fresh coefficients from the caller's stream
-        (res is Ok && hiding_bound is Some) ==> res->Ok_0.1.blinding_polynomial.coeffs@.len() == hiding_bound->Some_0 + 2,   // name=kzg10.commit.h_plus_2_blinding_coefficients props=C07
-        (res is Ok && hiding_bound is Some) ==> (forall|i: int| 0 <= i <= hiding_bound->Some_0 + 1 ==> (#[trigger] res->Ok_0.1.blinding_polynomial.coeffs@[i])@ == draw(old(rng->Some_0).id@, old(rng->Some_0).pos@ + i as nat)),   // name=kzg10.commit.blinding_is_fresh_from_caller_rng props=C07
-        (res is Ok && hiding_bound is Some) ==> final(rng->Some_0).pos@ == old(rng->Some_0).pos@ + hiding_bound->Some_0 + 2,   // name=kzg10.commit.rng_advanced props=C07
+        (res is Ok && hiding_bound is Some) ==> res->Ok_0.1.blinding_polynomial.coeffs@.len() == hiding_bound->Some_0 + 2,   // name=kzg10.commit.h_plus_2_blinding_coefficients props=C07,C19
+        (res is Ok && hiding_bound is Some) ==> (forall|i: int| 0 <= i <= hiding_bound->Some_0 + 1 ==> (#[trigger] res->Ok_0.1.blinding_polynomial.coeffs@[i])@ == draw(old(rng->Some_0).id@, old(rng->Some_0).pos@ + i as nat)),   // name=kzg10.commit.blinding_is_fresh_from_caller_rng props=C07,C19
+        (res is Ok && hiding_bound is Some) ==> final(rng->Some_0).pos@ == old(rng->Some_0).pos@ + hiding_bound->Some_0 + 2,   // name=kzg10.commit.rng_advanced props=C07,C19
         res is Ok ==> res->Ok_0.1.blinding_polynomial.wf(),
-        (res is Ok && hiding_bound is Some) ==> old(rng->Some_0).present@,   // name=kzg10.commit.hiding_with_absent_wrapped_rng_aborts props=C07
+        (res is Ok && hiding_bound is Some) ==> old(rng->Some_0).present@,   // name=kzg10.commit.hiding_with_absent_wrapped_rng_aborts props=C07,C19
         rng is Some ==> (final(rng->Some_0).id == old(rng->Some_0).id && final(rng->Some_0).present == old(rng->Some_0).present),
         (rng is Some && hiding_bound is Some) ==> final(rng->Some_0).pos@ >= old(rng->Some_0).pos@,
 //@body
@@ -180,17 +180,17 @@ impl KZG10 {
         }
 //@end
 
-//@fn id=kzg10.open_with_witness_polynomial file=poly-commit/src/kzg10/mod.rs scope="impl<E, P> KZG10<E, P>" name=open_with_witness_polynomial props=C01,C07,C17
+//@fn id=kzg10.open_with_witness_polynomial file=poly-commit/src/kzg10/mod.rs scope="impl<E, P> KZG10<E, P>" name=open_with_witness_polynomial props=C01,C07,C17,C19
     pub fn open_with_witness_polynomial<'a>(powers: &Powers, point: Fr, randomness: &Randomness, witness_polynomial: &Poly, hiding_witness_polynomial: Option<&Poly>) -> (res: Result<Proof, Error>)
     requires
         witness_polynomial.wf(),
         witness_polynomial.coeffs@.len() < usize::MAX,
     ensures
-        (res is Ok) == (witness_polynomial.degree_spec() + 1 <= powers.powers_of_g@.len()),   // name=kzg10.open_w.admission props=C17
+        (res is Ok) == (witness_polynomial.degree_spec() + 1 <= powers.powers_of_g@.len()),   // name=kzg10.open_w.admission props=C17,C19
         res is Ok ==> res->Ok_0.w@ == f_add(msm(powers.powers_of_g@, witness_polynomial.cv(), witness_polynomial.len()),
-            match hiding_witness_polynomial { Some(hw) => msm(powers.powers_of_gamma_g@, hw.cv(), min(powers.powers_of_gamma_g@.len(), hw.len())), None => f_zero() }),   // name=kzg10.open_w.witness_commitment props=C01
-        res is Ok ==> (res->Ok_0.random_v is Some) == (hiding_witness_polynomial is Some),   // name=kzg10.open_w.random_v_present_iff_hiding props=C07
-        (res is Ok && hiding_witness_polynomial is Some) ==> res->Ok_0.random_v->Some_0@ == randomness.blinding_polynomial.ev(point@),   // name=kzg10.open_w.random_v_is_blinding_evaluation props=C07,C01
+            match hiding_witness_polynomial { Some(hw) => msm(powers.powers_of_gamma_g@, hw.cv(), min(powers.powers_of_gamma_g@.len(), hw.len())), None => f_zero() }),   // name=kzg10.open_w.witness_commitment props=C01,C19
+        res is Ok ==> (res->Ok_0.random_v is Some) == (hiding_witness_polynomial is Some),   // name=kzg10.open_w.random_v_present_iff_hiding props=C07,C19
+        (res is Ok && hiding_witness_polynomial is Some) ==> res->Ok_0.random_v->Some_0@ == randomness.blinding_polynomial.ev(point@),   // name=kzg10.open_w.random_v_is_blinding_evaluation props=C07,C01,C19
 //@body
 //@after /let mut w =/
         proof {
@@ -206,14 +206,14 @@ impl KZG10 {
             proof { assert(bviews(random_witness_coeffs@) =~= hiding_witness_polynomial.cv()); }
 //@end
 
-//@fn id=kzg10.open file=poly-commit/src/kzg10/mod.rs scope="impl<E, P> KZG10<E, P>" name=open props=C01,C07,C17
+//@fn id=kzg10.open file=poly-commit/src/kzg10/mod.rs scope="impl<E, P> KZG10<E, P>" name=open props=C01,C07,C17,C19
     pub fn open<'a>(powers: &Powers, p: &Poly, point: Fr, rand: &Randomness) -> (res: Result<Proof, Error>)
     requires
         p.wf(),
         p.coeffs@.len() < usize::MAX,
     ensures
-        (res is Ok) == (p.degree_spec() + 1 <= powers.powers_of_g@.len()),   // name=kzg10.open.admission props=C17,C01
-        res is Ok ==> open_spec(powers, p, point, rand, res->Ok_0),           // name=kzg10.open.proof_is_commitment_to_quotient props=C01,C07
+        (res is Ok) == (p.degree_spec() + 1 <= powers.powers_of_g@.len()),   // name=kzg10.open.admission props=C17,C01,C19
+        res is Ok ==> open_spec(powers, p, point, rand, res->Ok_0),           // name=kzg10.open.proof_is_commitment_to_quotient props=C01,C07,C19
 //@body
 //@end
 
